@@ -8,7 +8,7 @@ from typing import Any, Dict, List, Optional, Set, Tuple
 from .. import linexpr as lx
 from ..core import AnalysisError, Report
 from ..linexpr import Env, py_ir, to_lin
-from ..pyfacts import Repo, calls, dotted, fold, norm, raise_guards, raised_class, walk_no_nested
+from ..pyfacts import Repo, inline_block, inline_predicates, canon_cond, push_not, calls, dotted, fold, norm, raise_guards, raised_class, walk_no_nested
 
 W = 'flipjump/fjm/fjm_writer.py'
 R = 'flipjump/fjm/fjm_reader.py'
@@ -29,24 +29,35 @@ VOCAB = {
 }
 
 
+_GUARD_FORMS = {
+    'V1': ['segment_length <= 0', 'segment_length < 1'],
+    'V2': ['segment_length < data_length'],
+    'V3': ['segment_start % 2 == 1', 'segment_start % 2 != 0', 'segment_start % 2', 'segment_start & 1', 'segment_start & 1 != 0', 'segment_start & 1 == 1'],
+    'V4': ['segment_length % 2 == 1', 'segment_length % 2 != 0', 'segment_length % 2', 'segment_length & 1', 'segment_length & 1 != 0', 'segment_length & 1 == 1'],
+    'V5': ['data_length % 2 != 0', 'data_length % 2 == 1', 'data_length % 2', 'data_length & 1', 'data_length & 1 != 0', 'data_length & 1 == 1'],
+}
+_GUARD_CANON = {v: {canon_cond(ast.parse(t, mode='eval').body) for t in forms} for v, forms in _GUARD_FORMS.items()}
+
+
 def classify_guard(test: ast.expr) -> Set[str]:
-    """map one raising guard to the constraint(s) whose violation it rejects."""
+    """map one raising guard to the constraint(s) whose violation it rejects. the guard is brought to negation normal form
+    first, so `not (a > 0 and a >= b)` classifies like `a <= 0 or a < b`."""
     out: Set[str] = set()
-    parts: List[ast.expr] = list(test.values) if isinstance(test, ast.BoolOp) and isinstance(test.op, ast.Or) else [test]
-    env = Env({})
+    test = push_not(test)
+    parts: List[ast.expr] = []
+    def split(x: ast.expr) -> None:
+        if isinstance(x, ast.BoolOp) and isinstance(x.op, ast.Or):
+            for v in x.values:
+                split(v)
+        else:
+            parts.append(x)
+    split(test)
     for p in parts:
+        c = canon_cond(p)
         t = norm(p).replace(' ', '')
-        ir = py_ir(p)
-        if t in ('segment_length<=0', 'segment_length<1', '0>=segment_length'):
-            out.add('V1')
-        elif t in ('segment_length<data_length', 'data_length>segment_length'):
-            out.add('V2')
-        elif t in ('segment_start%2==1', 'segment_start%2!=0', 'segment_start%2'):
-            out.add('V3')
-        elif t in ('segment_length%2==1', 'segment_length%2!=0', 'segment_length%2'):
-            out.add('V4')
-        elif t in ('data_length%2!=0', 'data_length%2==1', 'data_length%2'):
-            out.add('V5')
+        hit = [v for v, forms in _GUARD_CANON.items() if c in forms]
+        if hit:
+            out.update(hit)
         elif 'data_start' in t and 'data_length' in t and 'len(' in t and ('>' in t or '<' in t):
             out.add('V6')
         elif ('segment_start' in t and 'segment_length' in t and ('1<<64' in t or '2**64' in t)):
@@ -125,7 +136,9 @@ def rule_version_gates(rep: Report, repo: Repo) -> None:
              'sets on both sides', 4)
     REL = "self.version in (FJMVersion.RelativeJumpVersion, FJMVersion.CompressedVersion)"
     def tests(rel: str, fn: str) -> List[str]:
-        return [norm(n.test) for n in ast.walk(repo.func(rel, fn)) if isinstance(n, ast.If)]
+        # a private predicate method (`self._is_relative_jumps_version()`) stands for the expression it returns
+        return [norm(inline_predicates(repo, rel, fn.split('.')[0] if '.' in fn else None, n.test))
+                for n in ast.walk(repo.func(rel, fn)) if isinstance(n, ast.If)]
     w_ext = [t for t in tests(W, 'Writer.write_to_file') if 'BaseVersion' in t]
     r_ext = [t for t in tests(R, 'Reader._init_header_fields') if 'BaseVersion' in t]
     rep.check(w_ext == ['FJMVersion.BaseVersion != self.version'] and r_ext == ['FJMVersion.BaseVersion == self.version'],
@@ -156,7 +169,8 @@ def rule_reljump(rep: Report, repo: Repo) -> None:
     wf = repo.func(W, 'Writer._update_to_relative_jumps')
     loop = [n for n in ast.walk(wf) if isinstance(n, ast.For)][0]
     wr = norm(loop.iter)
-    st = loop.body[0]
+    wbody = inline_block(loop.body)              # named temporaries of the loop body are substituted
+    st = wbody[0]
     wenv = Env({'self.word_size': {'w': 1}, 'i': ('sym', 'k'), 'word_mask': py_ir(ast.parse('(1 << w) - 1', mode='eval').body)})
     if not (isinstance(st, ast.Assign) and isinstance(st.targets[0], ast.Subscript)):
         raise AnalysisError('_update_to_relative_jumps: unexpected loop body')
@@ -169,8 +183,9 @@ def rule_reljump(rep: Report, repo: Repo) -> None:
     rr = norm(rl[0].iter)
     renv = Env({'self.memory_width': {'w': 1}, 'i': ('bin', '-', ('sym', 'k'), ('num', 1)),
                 'word': py_ir(ast.parse('(1 << w) - 1', mode='eval').body)})
-    jump_st = [s for s in rl[0].body if isinstance(s, ast.Assign) and isinstance(s.value, ast.BinOp)]
-    flip_st = [s for s in rl[0].body if isinstance(s, ast.Assign) and not isinstance(s.value, ast.BinOp)]
+    rbody = inline_block(rl[0].body)
+    jump_st = [s for s in rbody if isinstance(s, ast.Assign) and isinstance(s.value, ast.BinOp)]
+    flip_st = [s for s in rbody if isinstance(s, ast.Assign) and not isinstance(s.value, ast.BinOp)]
     if len(jump_st) != 1 or len(flip_st) != 1:
         raise AnalysisError('_init_memory: relative-jump loop body shape changed')
     r_val = py_ir(jump_st[0].value)
